@@ -640,3 +640,127 @@ Definition run_edgeS (c : (list ((Z * Z) * list (str * Z)) * bool) * list ritem)
   let gs := map mk_group gl in
   let '(st2, o2) := rrun Repaired (init_receiver 7 false ll [cX SubEverything]) its in
   VL [VB (edgeS_hyps gs its); VL (map enc_frame (frames o2)); VL (map (fun g => enc_frame (frame_ofX frameS g)) gs)].
+
+(* ================================================================================================================ *)
+(*   N sources in lock step (EdgeN.v): the assembly facts with an accumulator, and the instantiated theorems           *)
+(* ================================================================================================================ *)
+From OF Require Import Proto.Retag Proto.EdgeN.
+
+Lemma A_asmN g q acc : group_wf g -> completeq dictA g q = true ->
+  (forall t, In t (map fst (frameA g)) -> ~ In t (map fst acc)) ->
+  assemble_src (tmX SubAll) (dictA g q) acc = Some (acc ++ frameA g).
+Proof.
+  intros Hg Hc Hd. destruct (A_complete_ge g q Hc) as [_ Hge]. destruct (vparts_wf g Hg) as [Hnd _].
+  unfold dictA. rewrite (rec_of_sat g (vparts g) q Hge). cbn [tmX].
+  apply (assemble_src_rec_of g (vparts g) acc Hnd). intros t Ht. apply Hd. unfold frameA. rewrite map_map. exact Ht.
+Qed.
+
+(* THE LOSSLESS SYNCHRONIZED JOIN ('addr' sources): N publishers publishing the same id sequence, each row's visible topic
+   names distinct across the sources *)
+Theorem joinA_lossless N rows cid ll its :
+  (0 < N)%nat -> Forall (row_ok group_wf frameA N) rows -> increasing_from MSG_ID_INITIAL_PREV (map rid rows) ->
+  EdgeN.fed SubAll N (map (fun i => xstream vparts (col rows i)) (seq 0 N)) its ->
+  exists k, frames (snd (rrun Repaired (init_receiver cid false ll (repeat (cX SubAll) N)) its))
+            = map (frame_ofN frameA) (firstn k rows).
+Proof.
+  intros Hn Hr Hi F.
+  exact (edgeN_lossless SubAll vparts dictA group_wf frameA A_pass I A_full A_proc A_asmN N Hn rows Hr Hi cid ll its F).
+Qed.
+
+Lemma frameE_names tm g sd x : In (sd, x) (frameE tm g) -> exists s0, In s0 (present tm g) /\ snd s0 = sd.
+Proof.
+  unfold frameE. intro H. apply in_flat_map in H as (s0 & Hs0 & Hin). exists s0. split; [exact Hs0|].
+  destruct (valE tm g (length (xpartsE tm g)) (fst s0)); [destruct Hin as [E|[]]; inversion E; reflexivity|destruct Hin].
+Qed.
+
+Lemma E_asmN tm g q acc : NoDup (map fst tm) -> NoDup (map snd tm) -> group_wf g -> completeq (dictE tm) g q = true ->
+  (forall t, In t (map fst (frameE tm g)) -> ~ In t (map fst acc)) ->
+  assemble_src (tmX (mdE tm)) (dictE tm g q) acc = Some (acc ++ frameE tm g).
+Proof.
+  intros Hs Hd Hg Hc Hdis. destruct q as [|q]; [discriminate|]. cbn [completeq] in Hc. cbn [tmX mdE]. unfold dictE in *.
+  pose proof (gall_mapd_inv _ _ Hc) as Hall.
+  assert (Eq : forall sd, In sd (present tm g) -> valE tm g (length (xpartsE tm g)) (fst sd) = valE tm g (S q) (fst sd)).
+  { intros sd Hin. destruct (valE tm g (S q) (fst sd)) as [x|] eqn:Ev; [|exfalso; exact (Hall sd Hin Ev)].
+    destruct (Nat.le_ge_cases (S q) (length (xpartsE tm g))) as [Hle|Hge].
+    - apply (valE_mono tm g (S q) (fst sd) x Ev _ Hle).
+    - rewrite <- (valE_all tm g (S q) (fst sd) Hge). exact Ev. }
+  rewrite (assemble_mapd tm Hs (valE tm g (S q)) (present tm g) acc).
+  - f_equal. f_equal. unfold frameE. apply flat_map_ext_in'. intros sd Hin. rewrite (Eq sd Hin). reflexivity.
+  - intros sd Hin. apply filter_In in Hin as [Hin _]. exact Hin.
+  - apply NoDup_map_filter. exact Hd.
+  - intros sd Hin. apply Hdis. unfold frameE. apply in_map_iff.
+    destruct (valE tm g (length (xpartsE tm g)) (fst sd)) as [x|] eqn:Ev; [|exfalso; rewrite (Eq sd Hin) in Ev; exact (Hall sd Hin Ev)].
+    exists (snd sd, x). split; [reflexivity|]. apply in_flat_map. exists sd. split; [exact Hin|]. rewrite Ev. left. reflexivity.
+  - exact Hall.
+Qed.
+
+(* the same join for explicit subscriptions 'addr;a;b>c' (one subscription form for all the sources) *)
+Theorem joinE_lossless tm N rows cid ll its :
+  tm <> [] -> NoDup (map fst tm) -> NoDup (map snd tm) -> Forall (fun sd => fst sd <> []) tm ->
+  (0 < N)%nat -> Forall (row_ok group_wf (frameE tm) N) rows -> increasing_from MSG_ID_INITIAL_PREV (map rid rows) ->
+  EdgeN.fed (mdE tm) N (map (fun i => xstream (xpartsE tm) (col rows i)) (seq 0 N)) its ->
+  exists k, frames (snd (rrun Repaired (init_receiver cid false ll (repeat (cX (mdE tm)) N)) its))
+            = map (frame_ofN (frameE tm)) (firstn k rows).
+Proof.
+  intros Hne Hs Hd Hnm Hn Hr Hi F.
+  exact (edgeN_lossless (mdE tm) (xpartsE tm) (dictE tm) group_wf (frameE tm) (E_pass tm) (E_fresh tm Hne Hs Hd Hnm) (E_full tm)
+           (E_proc tm Hs Hnm) (fun g q acc => E_asmN tm g q acc Hs Hd) N Hn rows Hr Hi cid ll its F).
+Qed.
+
+(* ---- executable hypotheses and runner for the join (correspondence family "join") ------------------------------------ *)
+Fixpoint fedbN (md : smode) (n : nat) (rs : list (list wmsg)) (its : list ritem) : bool :=
+  match its with
+  | [] => true
+  | IDeliver i m :: its' => Nat.ltb i n && (if passesX md m then match nth_error rs i with
+                                                               | Some (m' :: r) => wmsg_eqb m' m && fedbN md n (setn rs i r) its'
+                                                               | _ => false end
+                                            else fedbN md n rs its')
+  | ICall state _ _ :: its' => (match state with None => true | Some _ => false end) && fedbN md n rs its'
+  | _ :: its' => fedbN md n rs its'
+  end.
+Lemma fedbN_sound md n its : forall rs, fedbN md n rs its = true -> EdgeN.fed md n rs its.
+Proof.
+  induction its as [|it its IH]; intros rs H; [exact I|]. destruct it; cbn in H |- *; try (apply IH; exact H).
+  - apply andb_true_iff in H as [H1 H2]. apply Nat.ltb_lt in H1. split; [exact H1|].
+    destruct (passesX md m); [|apply IH; exact H2].
+    destruct (nth_error rs i) as [[|m' r]|] eqn:E; try discriminate. apply andb_true_iff in H2 as [H2 H3]. apply wmsg_eqb_eq in H2. subst m'.
+    exists r. split; [reflexivity|apply IH; exact H3].
+  - apply andb_true_iff in H as [H1 H2]. split; [destruct state; [discriminate|reflexivity]|apply IH; exact H2].
+Qed.
+
+Fixpoint incb (p : Z) (l : list Z) : bool := match l with [] => true | x :: l' => (p <? x) && incb x l' end.
+Lemma incb_sound l : forall p, incb p l = true -> increasing_from p l.
+Proof. induction l as [|x l IH]; intros p H; [exact I|]. cbn in H. apply andb_true_iff in H as [H1 H2]. split; [apply Z.ltb_lt; exact H1|apply IH; exact H2]. Qed.
+
+Definition rowA_okb (n : nat) (row : list group) : bool :=
+  Nat.eqb (length row) n && forallb group_wfb row && forallb (fun g => gid g =? rid row) row &&
+  nodup_strb (map fst (frame_row frameA row)).
+Lemma rowA_okb_sound n row : rowA_okb n row = true -> row_ok group_wf frameA n row.
+Proof.
+  unfold rowA_okb. intro H. repeat (apply andb_true_iff in H as [H ?]). apply Nat.eqb_eq in H.
+  split; [exact H|]. split.
+  - rewrite Forall_forall. intros g Hg. apply group_wfb_sound. match goal with F : forallb group_wfb row = true |- _ => rewrite forallb_forall in F; apply F; exact Hg end.
+  - split; [|apply nodup_strb_sound; assumption].
+    intros g Hg. match goal with F : forallb (fun g0 => gid g0 =? rid row) row = true |- _ => rewrite forallb_forall in F; specialize (F g Hg); apply Z.eqb_eq in F; exact F end.
+Qed.
+
+Definition joinA_hyps (n : nat) (rows : list (list group)) (its : list ritem) : bool :=
+  Nat.ltb 0 n && forallb (rowA_okb n) rows && incb MSG_ID_INITIAL_PREV (map rid rows) &&
+  fedbN SubAll n (map (fun i => xstream vparts (col rows i)) (seq 0 n)) its.
+
+Theorem joinA_lossless_checked n rows cid ll its :
+  joinA_hyps n rows its = true ->
+  exists k, frames (snd (rrun Repaired (init_receiver cid false ll (repeat (cX SubAll) n)) its)) = map (frame_ofN frameA) (firstn k rows).
+Proof.
+  unfold joinA_hyps. intro H. repeat (apply andb_true_iff in H as [H ?]). apply Nat.ltb_lt in H.
+  apply joinA_lossless; [exact H| |apply incb_sound; assumption|apply fedbN_sound; assumption].
+  rewrite Forall_forall. intros row Hr. apply rowA_okb_sound. match goal with F : forallb (rowA_okb n) rows = true |- _ => rewrite forallb_forall in F; apply F; exact Hr end.
+Qed.
+
+(* case = ((rows of groups, low_latency), items); every row has one group per source *)
+Definition run_joinA (c : (list (list ((Z * Z) * list (str * Z))) * bool) * list ritem) : val :=
+  let '((rl, ll), its) := c in
+  let rows := map (map mk_group) rl in
+  let n := match rows with row :: _ => length row | [] => 1%nat end in
+  let '(st2, o2) := rrun Repaired (init_receiver 7 false ll (repeat (cX SubAll) n)) its in
+  VL [VB (joinA_hyps n rows its); VL (map enc_frame (frames o2)); VL (map (fun row => enc_frame (frame_ofN frameA row)) rows)].
